@@ -143,6 +143,10 @@ def build(thorough):
     for i, en in enumerate(MEDITS):
         ob(f'model_params[edit={en}]', 'C04_model.py', 'model_params', dict(VH_EDIT=i), timeout=max(T, 450))
     ob('model_params__twin', 'C04_model.py', 'model_params__twin', dict(VH_EDIT=1), timeout=150, kind='twin')
+    # four etas over several multi-value records: edits that remove / join all etas of one record
+    ob('model_params4[multi-value records]', 'C04_model.py', 'model_params4', {}, timeout=max(T, 450))
+    ob('finding_omega_insert_into_diag[model level]', 'C04_model.py', 'model_params4', dict(VH_REGION='join_middle_of_diag'))
+    ob('model_params4__twin', 'C04_model.py', 'model_params4__twin', {}, timeout=150, kind='twin')
     # twins --------------------------------------------------------------------------------------------------------------
     for func, file, env in (('diff_ok', LCS, dict(VH_N=3)), ('reorder_ok', LCS, dict(VH_N=3)),
                             ('thetas_ok', UPD, dict(VH_K=2)), ('omegas_ok', UPD, dict(VH_K=2)),
